@@ -463,7 +463,27 @@ def _vee_ok(tw, mat):
     b = matches('r_[_V, _W]', tw)
     if b is not None:
         m = matches('Ab2M(_S, _V2)', mat)
-        return m is not None and ast.unparse(m['_V2']) == ast.unparse(b['_V']) and ('vex(%s)' % ast.unparse(m['_S'])) == ast.unparse(b['_W'])
+        if m is None or ast.unparse(m['_V2']) != ast.unparse(b['_V']):
+            return False if m is not None else None
+        if ('vex(%s)' % ast.unparse(m['_S'])) == ast.unparse(b['_W']):
+            return True
+        # rotational block written as skew(w): its vee is w (the planar case, w a scalar angle, included)
+        sk = matches('skew(_X)', m['_S'])
+        if sk is not None:
+            x = sk['_X']
+            if isinstance(x, ast.List) and len(x.elts) == 1:
+                x = x.elts[0]
+            return nm.poly(x) == nm.poly(b['_W'])
+        return False
+    # planar rotation: [theta] with skew(theta)
+    b = matches('array([_W])', tw) or matches('r_[_W]', tw)
+    if b is not None:
+        sk = matches('skew(_X)', mat)
+        if sk is not None:
+            x = sk['_X']
+            if isinstance(x, ast.List) and len(x.elts) == 1:
+                x = x.elts[0]
+            return nm.poly(x) == nm.poly(b['_W'])
     b = matches('vex(_M)', tw) or matches('vexa(_M)', tw)
     if b is not None:
         return nm.poly(b['_M']) == nm.poly(mat)
